@@ -29,12 +29,13 @@ META = {
                   'shared page), every listed shared access is inside its lock, every page keeps x in every intermediate state, every call of a steadily '
                   'mocked function returns the mocked result (incl. callbacks calling the origin placeholder), other threads never change a thread\'s own '
                   'targets, each thread\'s targets and control state evolve exactly as in a run in which it alone is scheduled (isolation by solo simulation), and '
-                  'restoration at quiescence transfers from each builder\'s sequential run to every interleaving, with both locks free. '
+                  'for every program of the generator\'s class (any builder operation sequence ending in reset; callers) all mocked functions are pristine and both locks free '
+                  'at quiescence in every interleaving (quiescent_restored_builders, sequential part proved by a micro-step invariant). '
                   'The model is tied to the code by differential runs of the real API under -race.',
-    'level_note': 'Partial because: (0) that a single builder\'s sequential run ends pristine is the hypothesis of quiescent_restored (property C02\'s subject); here it is '
-                  'evaluated by the driver for every generated round, not proved for all programs; (1) data races on fields the model does not list are only covered by the Go race detector during the stress runs (a test); '
+    'level_note': 'Partial because: (1) data races on fields the model does not list are only covered by the Go race detector during the stress runs (a test); '
                   '(2) torn instruction fetch during the 13-byte entry write and CPU cross-modifying-code behaviour cannot be exhibited by the model - only '
-                  'crash-free stress (a test); (3) the 13-byte copy is one model step. internal/patch exports Unpatch/UnpatchInstanceMethod/UnpatchAll which '
+                  'crash-free stress (a test); (3) the 13-byte copy is one model step: Props states what that abstracts (CopyIsAtomic is refuted at byte level by copy_is_not_atomic_at_byte_level; '
+                  'write_excludes_calls proves no modelled thread calls a location while any thread is inside its WriteTo script). internal/patch exports Unpatch/UnpatchInstanceMethod/UnpatchAll which '
                   'touch the patch table WITHOUT patchesLock; they are unreachable from the builder API (verified by grep on every run) and therefore outside '
                   'the property. Trusted: Lean kernel, probe + canonicalisation, kernel mprotect semantics.',
 }
@@ -56,6 +57,10 @@ def gen_round(rng, tier, big=False):
     neigh = rng.below(4)
     k = rng.choice([5, 20, 60, 200]) if nc <= 16 else rng.choice([5, 20])
     y = rng.below(2)
+    dbg = 1 if rng.below(3) == 0 else 0   # a share of the rounds runs with OpenDebug(): every replacement is wrapped by debug.go
+    if dbg:
+        k = min(k, 20)                     # the wrapper prints one line per call
+        nc = max(nc, 3)
     mode = rng.choice(['cluster', 'spread', 'interleave'])
     pool = list(range(NT))
     if mode == 'spread':
@@ -86,9 +91,9 @@ def gen_round(rng, tier, big=False):
             own[f'B{i + 1}'] = pool[ns + i * per: ns + i * per + cnt]
     steady = [f for f in own.get('S', [])]
     for f in steady:
-        kind = rng.choice(['ret', 'cb', 'cbo', 'cbo'])
+        kind = rng.choice(['ret', 'cb', 'cbo', 'cbo', 'tab', 'tab'])
         segs.append(f'S mock {f} {kind} {1 + rng.below(90)} {1 if kind == "cbo" else 0}')
-    kinds = {'mock': 0, 'chk': 0, 'reset': 0, 'ret': 0, 'cb': 0, 'cbo': 0, 'restub': 0}
+    kinds = {'mock': 0, 'chk': 0, 'reset': 0, 'ret': 0, 'tab': 0, 'cb': 0, 'cbo': 0, 'restub': 0}
     for i in range(nb):
         name = f'B{i + 1}'
         tg = own.get(name, [])
@@ -100,8 +105,8 @@ def gen_round(rng, tier, big=False):
             c = rng.below(10)
             if c < 6:
                 f = rng.choice(tg)
-                kind = rng.choice(['cb', 'cbo'] if f in had_ret else ['ret', 'cb', 'cbo'])
-                if kind == 'ret':
+                kind = rng.choice(['cb', 'cbo'] if f in had_ret else ['ret', 'tab', 'cb', 'cbo'])
+                if kind in ('ret', 'tab'):
                     had_ret.add(f)
                 if kind == 'cbo':
                     origin.add(f)
@@ -135,8 +140,8 @@ def gen_round(rng, tier, big=False):
     else:
         nc = 0
     segs.append(f'N {neigh}')
-    line = f'c11.round y={y} K={k} | ' + ' | '.join(segs)
-    return line, {'nb': nb, 'nc': nc, 'neigh': neigh, 'mode': mode, 'kinds': kinds}
+    line = f'c11.round y={y} d={dbg} K={k} | ' + ' | '.join(segs)
+    return line, {'nb': nb, 'nc': nc, 'neigh': neigh, 'mode': mode, 'kinds': kinds, 'debug': dbg}
 
 
 # ------------------------------------------------------------------ independent expectation (the property, not the model)
@@ -169,7 +174,7 @@ def expect(line):
         if m is None:
             return a * 7 + f
         kind, v = m
-        return {'ret': v, 'cb': a + v, 'cbo': a * 7 + f + v}[kind]
+        return {'ret': v, 'cb': a + v, 'cbo': a * 7 + f + v, 'tab': v + a if a in (1, 2) else v}[kind]
 
     steady = {}
     for op in prog.get('S', []):
@@ -190,9 +195,10 @@ def expect(line):
             parts.append(f'{name}=[' + ','.join(out) + ']')
         elif name[0] == 'C':
             cnt = {}
-            for _ in range(K):
+            for k in range(K):
                 for f in (int(x) for s in prog[name] for x in s):
-                    key = f'{f}:{val(steady, f, ci + 1)}'
+                    a = (ci + k) % 4 + 1
+                    key = f'{f}:{a}>{val(steady, f, a)}'
                     cnt[key] = cnt.get(key, 0) + 1
             parts.append(f'{name}={{' + ';'.join(sorted(f'{k}*{n}' for k, n in cnt.items())) + '}')
             ci += 1
@@ -210,13 +216,14 @@ def oracle(line, obs):
         return f'process {main.split()[0]} during concurrent mock/reset/call ({kv.get("err", "")})', 'crash'
     if main == 'bad-op':
         return None
-    if races:
-        return f'{races} data race report(s) by the Go race detector, first goom frame: {kv.get("raceat", "?")}', 'race:' + kv.get('raceat', '?')
     want = expect(line)
     if main != want:
         a, b = main.split(' '), want.split(' ')
-        first = next((f'{x} (wanted {y})' for x, y in zip(a, b) if x != y), 'length differs')
-        return f'observation differs from what isolation/steady-mock/restore demand: {first}', 'wrong-result'
+        first = next((f'{x[:160]} (wanted {y[:160]})' for x, y in zip(a, b) if x != y), 'length differs')
+        extra_r = f' [+{races} race report(s), first goom frame {kv.get("raceat", "?")}]' if races else ''
+        return f'observation differs from what isolation/steady-mock/restore demand: {first}{extra_r}', 'wrong-result'
+    if races:
+        return f'{races} data race report(s) by the Go race detector, first goom frame: {kv.get("raceat", "?")}', 'race:' + kv.get('raceat', '?')
     if kv.get('neighbad', '0') != '0':
         return 'an unmocked function sharing a page with a patched target returned a wrong result', 'neighbour'
     if kv.get('perms') != 'r-xp':
@@ -437,7 +444,7 @@ def run(tier):
             'builders_per_round': {str(k): sum(1 for m in metas if m['nb'] == k) for k in sorted({m['nb'] for m in metas})},
             'callers_max': max((m['nc'] for m in metas), default=0), 'callers_total': sum(m['nc'] for m in metas),
             'layout_modes': {k: sum(1 for m in metas if m['mode'] == k) for k in sorted({m['mode'] for m in metas})},
-            'op_kinds': kinds,
+            'op_kinds': kinds, 'rounds_with_debug_logging': sum(1 for m in metas if m.get('debug')),
             'builder_ops_total': tot('ops'), 'builder_ops_overlapping_another_builder': tot('overlap'),
             'same_page_pairs(target, other used location)': tot('share'), 'targets_whose_13_bytes_cross_a_page': tot('cross'),
             'race_reports': tot('races'), 'text_kb_diffed_per_round': int(ext[0].get('textkb', 0)) if ext else 0,
